@@ -125,6 +125,7 @@ def run(ctx):
                 ctx.fail(fn + ':terminates', 'no result within 20 s', pc); continue
             except Exception as e:
                 ctx.fail(fn + ':raises', 'raised %r' % (e,), pc); continue
+            pc = pub(case)          # (again: call_impl ties the representation its calls ran on to the case)
             nmoves = sum(len(L['moves']) for L in levels)
             ctx.case(pc, nontrivial=nmoves > 0, sample_every=97)
             ctx.count('fn:' + fn); ctx.count('family:' + case['family']); ctx.count('n=%d' % n)
